@@ -37,6 +37,10 @@ type Result struct {
 	RangeSites int    `json:"range_sites"`
 	YieldSites int    `json:"yield_sites"`
 	Files      int    `json:"files"`
+	// Concurrent lists the packages that start goroutines or import package
+	// sync / x/sync: they switch simrt to its concurrent mode (no cooperative
+	// hand-overs, atomic counters)
+	Concurrent []string `json:"concurrent_packages,omitempty"`
 }
 
 const rtName = "verifsimrt"
@@ -60,6 +64,27 @@ func Instrument(dir, simrtDir string) (*Result, error) {
 	for _, p := range pkgs {
 		if len(p.Errors) > 0 {
 			return nil, fmt.Errorf("simgen: %s: %v", p.PkgPath, p.Errors[0])
+		}
+		conc := false
+		for i, f := range p.Syntax {
+			if rel, _ := filepath.Rel(dir, p.CompiledGoFiles[i]); strings.HasPrefix(rel, "..") {
+				continue
+			}
+			for _, im := range f.Imports {
+				ip, _ := strconv.Unquote(im.Path.Value)
+				if ip == "sync" || strings.HasPrefix(ip, "golang.org/x/sync/") {
+					conc = true
+				}
+			}
+			ast.Inspect(f, func(n ast.Node) bool {
+				if _, ok := n.(*ast.GoStmt); ok {
+					conc = true
+				}
+				return true
+			})
+		}
+		if conc {
+			res.Concurrent = append(res.Concurrent, p.PkgPath)
 		}
 		for i, f := range p.Syntax {
 			fname := p.CompiledGoFiles[i]
@@ -158,6 +183,18 @@ func Instrument(dir, simrtDir string) (*Result, error) {
 				}
 				fd.Body.List = append(stmts, fd.Body.List...)
 				res.YieldSites++
+				changed = true
+			}
+			if conc {
+				// func init() { verifsimrt.MarkConcurrent() }
+				f.Decls = append(f.Decls, &ast.FuncDecl{
+					Name: ast.NewIdent("init"),
+					Type: &ast.FuncType{Params: &ast.FieldList{}},
+					Body: &ast.BlockStmt{List: []ast.Stmt{&ast.ExprStmt{X: &ast.CallExpr{
+						Fun: &ast.SelectorExpr{X: ast.NewIdent(rtName), Sel: ast.NewIdent("MarkConcurrent")},
+					}}}},
+				})
+				conc = false
 				changed = true
 			}
 			if !changed {
